@@ -194,6 +194,7 @@ func (h *H) restart(tk []string) {
 	if kv(h.confToks, "store") == "dir" && !*h.conf.Storage.ReadOnly {
 		for repo := range h.mon.repos {
 			if h.mon.routable(h, repo) {
+				h.mon.preGC(h, repo)
 				h.touchIndex(repo)
 				_ = h.srv.VerifGC(repo)
 				h.mon.gc(h, repo)
